@@ -104,6 +104,10 @@ def concrete(typ, role, ptr, default, envpat, clipat, rnd, custom=None, tag=""):
                 raw = "%s,%s," % (elems[0], elems[1])
         else:
             elems = [tk.valid() if st == "valid" else tk.invalid()]
+            if st == "valid" and (string_like or typ == "custom") and rnd.random() < 0.3:
+                elems = ["hello, world"]      # a comma means nothing for a single-valued variable
+            if st == "invalid" and typ in ("int", "float", "bool") and rnd.random() < 0.3:
+                elems = [{"int": "1,2", "float": "1,5", "bool": "false,true"}[typ]]
             oks = [st == "valid"]
             raw = elems[0]
         envs.append({"name": name, "state": "set", "value": raw})
